@@ -1160,9 +1160,10 @@ def census(F, rep, contracts):
                 continue
             status = "contract:" + contracts[id(n)] if id(n) in contracts else guarded(n, parents) or "unreviewed"
             if status == "unreviewed" and kind.startswith("unwrap"):
-                why = UNWRAP_REVIEWED.get((last(fn["_path"], 2), _shape(n)))
+                table = {(f_, _norm_shape(sh_)): r_ for (f_, sh_), r_ in UNWRAP_REVIEWED.items()}
+                why = table.get((last(fn["_path"], 2), _norm_shape(_shape(n))))
                 for d_ in (1, 2, 3):
-                    why = why or UNWRAP_REVIEWED.get((last(fn["_path"], 2), _shape(_inline_lets(n, fn, d_))))
+                    why = why or table.get((last(fn["_path"], 2), _norm_shape(_shape(_inline_lets(n, fn, d_)))))
                 if why:
                     status = "reviewed:" + why
                 else:
@@ -1231,6 +1232,12 @@ UNSIGNED_SUB = {
     ("sylt_tokenizer::string_to_tokens", "($1[$2.end].unwrap() Sub $3)"):
         "last_newline is the character index of a newline met before this token",
 }
+
+
+def _norm_shape(sh):
+    """a shape without the adaptors that do not change the value (`&`, .clone(), .to_string(), .to_owned(), .as_str(), .into())"""
+    sh = re.sub(r"\.(clone|to_string|to_owned|as_str|into|as_ref|borrow)\(\)", "", sh)
+    return sh.replace("&", "").replace("(*", "(").replace(" ", "")
 
 
 def _inline_lets(n, fn, depth=4):
